@@ -292,7 +292,49 @@ def run(ctx):
                     r2.ok("plumbing", "table(key, decode(modifier).into(), config.get_fixed_numpad())")
                 else:
                     r2.violation("plumbing", "key handler passes (%r, %r, %r) to the key table" % (args[1], m, n), site_of(b, bb))
-    r2.floor(7, "from, 2 display arms, lookup format, 2 decode fields, plumbing")
+                # every key reaches the table: the look-up is on every path of the key event, or what lets a key skip it is a predicate of
+                # the key code that is true for every key code the table has a row for (evaluated over the table's keys)
+                rets_ = [i for i in b.rblocks if b.blocks[i]["term"]["k"] == "return"]
+                if all(b.dominates(bb, r_) for r_ in rets_):
+                    r2.ok("reached", "the table look-up is on every path of the key event")
+                else:
+                    from engine.analyses import PredEval
+                    pe_ = PredEval(prog)
+                    verdict = None
+                    n_good = 0
+                    for (d, pol, s_) in guards_of(b, bb):
+                        if d.k == "call" and d.a[0] in prog.fns and len(d.a[1]) == 1 and strip_refs(d.a[1][0]).k == "arg" and strip_refs(d.a[1][0]).a[0] == 2 \
+                                and pol in (True, False):
+                            lost = []
+                            for kc in sorted(rows):
+                                r_ = pe_.call(d.a[0], [kc])
+                                if r_ is None:
+                                    lost = None
+                                    break
+                                if bool(r_) != pol:
+                                    lost.append(kc)
+                            if lost is None:
+                                verdict = verdict or ("undecidable", "cannot evaluate %s over the key codes" % d.a[0], s_)
+                            elif not lost:
+                                n_good += 1
+                            elif lost:
+                                nm = [(by_val.get(k_) or [hex(k_)])[0] for k_ in lost[:4]]
+                                verdict = ("violation", "the key event skips the layout look-up unless %s(key) is %s, which excludes %s — key(s) the layout has "
+                                           "an entry for: pressing them appends nothing" % (d.a[0].split("::")[-1], pol, ", ".join(nm)), s_)
+                                break
+                        else:
+                            verdict = verdict or ("undecidable", "the layout look-up is skipped under %r, which is not a predicate of the key code the rule can evaluate" % (d,), s_)
+                    if verdict is None and n_good:
+                        r2.ok("reached", "the table look-up is skipped only for key codes the table has no row for (%d key-code guard(s) evaluated over %d rows)" % (n_good, len(rows)))
+                    elif verdict is None:
+                        r2.undecidable("reached", "the table look-up does not dominate every return of the key event and no guard explains it", site_of(b, bb))
+                    elif verdict[0] == "violation":
+                        r2.violation("reached", verdict[1], site_of(b, verdict[2]))
+                    else:
+                        # all evaluable guards hold for every mapped key and nothing else guards the look-up → fine; otherwise undecidable
+                        if verdict[0] == "undecidable":
+                            r2.undecidable("reached", verdict[1], site_of(b, verdict[2]))
+    r2.floor(8, "from, 2 display arms, lookup format, 2 decode fields, plumbing, reached")
 
     # ---------------- R3 inert cases
     r3 = chk.rule("C04.R3", "empty / missing / numpad-off assignments yield no value, and no value writes nothing",
